@@ -248,6 +248,34 @@ spec('pair-combined-name-not-announced', ['C09', 'C11'], 'PAIR', 'PAIR:helpers::
             on_name(len, name.clone());''', '''            name_mapping.borrow_mut().insert(name.clone(), len);''')])
 spec('pair-concat-not-dense', ['C11'], 'PAIR', 'PAIR:<concat_source::ConcatSource', [
     (CC, 'source_mapping.insert(source.clone(), len);', 'source_mapping.insert(source.clone(), len + 1);')])
+spec('alloc-dedup-concat-source-no-lookup', ['C06', 'C11'], 'ALLOC-DEDUP', 'ALLOC-DEDUP:<concat_source::ConcatSource', [
+    (CC, '''          let mut global_index = source_mapping.get(&source).copied();
+          if global_index.is_none() {
+            let len = source_mapping.len() as u32;
+            source_mapping.insert(source.clone(), len);
+            on_source(len, source, source_content);
+            global_index = Some(len);
+          }
+          source_index_mapping
+            .borrow_mut()
+            .insert(i, global_index.unwrap());''', '''          let len = source_mapping.len() as u32;
+          source_mapping.insert(source.clone(), len);
+          on_source(len, source, source_content);
+          source_index_mapping.borrow_mut().insert(i, len);''')])
+spec('alloc-dedup-combined-name-no-lookup', ['C09', 'C11'], 'ALLOC-DEDUP', 'ALLOC-DEDUP:helpers::stream_chunks_of_combined_source_map', [
+    (HP, '''          let mut global_index = name_mapping.get(name).copied();
+          if global_index.is_none() {
+            let len = name_mapping.len() as u32;
+            name_mapping.borrow_mut().insert(name.clone(), len);
+            on_name(len, name.clone());
+            global_index = Some(len);
+          }
+          final_name_index = global_index.unwrap() as i64;
+          name_index_mapping.insert(name_index, final_name_index);''', '''          let len = name_mapping.len() as u32;
+          name_mapping.borrow_mut().insert(name.clone(), len);
+          on_name(len, name.clone());
+          final_name_index = len as i64;
+          name_index_mapping.insert(name_index, final_name_index);''')])
 spec('root-lines-final-raw-name', ['C08'], 'ROOT', 'ROOT:helpers::stream_chunks_of_source_map_lines_final', [
     (HP, '''      get_source(source_map, source),
       source_map.get_source_content(i).map(Rope::from),
